@@ -48,6 +48,23 @@ pub mod cookie {
     impl<'c> ResponseCookie<'c> {
         pub fn new<N: Into<Cow<'c, str>>, V: Into<Cow<'c, str>>>(name: N, value: V) -> Self { Self { name: name.into(), value: value.into(), domain: None, path: None, same_site: None, secure: None, http_only: None, max_age: None, removal: false } }
         pub fn name(&self) -> &str { &self.name }
+        // getters of the real type (biscotti::ResponseCookie), so that first-party code that reads a
+        // cookie back keeps compiling against the shim
+        pub fn value(&self) -> &str { &self.value }
+        pub fn name_value(&self) -> (&str, &str) { (&self.name, &self.value) }
+        pub fn domain(&self) -> Option<&str> { self.domain.as_deref() }
+        pub fn path(&self) -> Option<&str> { self.path.as_deref() }
+        pub fn secure(&self) -> Option<bool> { self.secure }
+        pub fn http_only(&self) -> Option<bool> { self.http_only }
+        pub fn same_site(&self) -> Option<SameSite> { self.same_site }
+        pub fn max_age(&self) -> Option<super::time::SignedDuration> { self.max_age }
+        pub fn set_value<V: Into<Cow<'c, str>>>(mut self, v: V) -> Self { self.value = v.into(); self }
+        pub fn set_name<N: Into<Cow<'c, str>>>(mut self, n: N) -> Self { self.name = n.into(); self }
+        pub fn unset_domain(mut self) -> Self { self.domain = None; self }
+        pub fn unset_path(mut self) -> Self { self.path = None; self }
+        pub fn into_owned(self) -> ResponseCookie<'static> {
+            ResponseCookie { name: Cow::Owned(self.name.into_owned()), value: Cow::Owned(self.value.into_owned()), domain: self.domain.map(|d| Cow::Owned(d.into_owned())), path: self.path.map(|d| Cow::Owned(d.into_owned())), same_site: self.same_site, secure: self.secure, http_only: self.http_only, max_age: self.max_age, removal: self.removal }
+        }
         pub fn set_domain<D: Into<Cow<'c, str>>>(mut self, d: D) -> Self { self.domain = Some(d.into()); self }
         pub fn set_path<D: Into<Cow<'c, str>>>(mut self, d: D) -> Self { self.path = Some(d.into()); self }
         pub fn set_same_site<S: Into<Option<SameSite>>>(mut self, s: S) -> Self { self.same_site = s.into(); self }
@@ -71,5 +88,9 @@ pub mod cookie {
     impl Processor { pub fn will_encrypt(&self, _n: &str) -> bool { self.encrypts } pub fn will_sign(&self, _n: &str) -> bool { self.signs && !self.encrypts } }
     #[derive(Default)]
     pub struct ResponseCookies { pub inserted: Option<ResponseCookie<'static>>, pub n: usize }
-    impl ResponseCookies { pub fn insert(&mut self, c: ResponseCookie<'static>) { self.inserted = Some(c); self.n += 1; } }
+    impl ResponseCookies {
+        pub fn new() -> Self { Self::default() }
+        pub fn insert(&mut self, c: ResponseCookie<'static>) { self.inserted = Some(c); self.n += 1; }
+        pub fn get(&self, name: &str) -> Option<&ResponseCookie<'static>> { match &self.inserted { Some(c) if &*c.name == name => Some(c), _ => None } }
+    }
 }
